@@ -266,7 +266,7 @@ def _on_write(buf, pos):
     if MON.floor is not None and buf.epoch <= MON.floor:
         MON.foreign_writes.append((buf.name or buf.epoch, pos))
     if MON.race is not None:
-        key = (id(buf), pos)
+        key = (buf.epoch, pos)
         prev = MON.race.get(key)
         if prev is not None and prev[0] != MON.race_iter:
             raise RaceFault("cell written by prange iteration %s and %s by %s" % (MON.race_iter, "read" if prev[1] == "r" else "written", prev[0]))
@@ -275,7 +275,7 @@ def _on_write(buf, pos):
 
 def _on_read(buf, pos):
     if MON.race is not None:
-        key = (id(buf), pos)
+        key = (buf.epoch, pos)
         prev = MON.race.get(key)
         if prev is not None and prev[1] == "w" and prev[0] != MON.race_iter:
             raise RaceFault("cell read by prange iteration %s was written by iteration %s" % (MON.race_iter, prev[0]))
